@@ -394,11 +394,11 @@ def make_env():
     return env
 
 
-def normalise(log):
+def normalise(log, ignore_depth=False):
     out = []
     for e in log:
         if e[0] == "obs":
-            out.append(("obs", tuple(sorted(e[1].items())), e[2]))
+            out.append(("obs", tuple(sorted(e[1].items())), None if ignore_depth else e[2]))
         else:
             out.append(tuple(e))
     return out
@@ -415,7 +415,8 @@ def run_program(env, prog):
     ref = RefInterp()
     ref.obs()
     ref.run_block(prog)
-    return normalise(real.log), normalise(ref.log), adapter.stack_depth(), adapter.flags()
+    blind = adapter.stack_depth() == -1  # internals not readable: compare the public observations only
+    return normalise(real.log, blind), normalise(ref.log, blind), adapter.stack_depth(), adapter.flags()
 
 
 def _reset_stack():
